@@ -45,6 +45,8 @@ type Opts struct {
 	Corrupt func(dir string, off int64, p []byte)  // may alter the private copy p of a chunk; dir is g2e or e2g
 	Record  bool
 	Horizon int
+	// RandChunk > 0: the randomness sources handed to the code under test return at most RandChunk bytes per Read
+	RandChunk int
 }
 
 // Result is what a session produced.
@@ -112,14 +114,14 @@ func run(o Opts, garbler func(conn *p2p.Conn, oti ot.OT, r *Result) error, evalu
 		}
 		csched.GoNamed("garbler", func() {
 			conn := p2p.NewConn(a)
-			spy := &Spy{OT: MkOT(o.OT, drbg.New(o.Seed*2+1))}
+			spy := &Spy{OT: MkOT(o.OT, drbg.NewChunked(o.Seed*2+1, o.RandChunk))}
 			res.GErr = protect(func() error { return garbler(conn, spy, res) })
 			res.Seen = spy.Seen
 			conn.Close()
 		})
 		csched.GoNamed("evaluator", func() {
 			conn := p2p.NewConn(b)
-			res.EErr = protect(func() error { return evaluator(conn, MkOT(o.OT, drbg.New(o.Seed*2+2)), res) })
+			res.EErr = protect(func() error { return evaluator(conn, MkOT(o.OT, drbg.NewChunked(o.Seed*2+2, o.RandChunk)), res) })
 			conn.Close()
 		})
 	})
@@ -144,7 +146,7 @@ func protect(f func() error) (err error) {
 // RunCircuit runs circuit.Garbler against circuit.Evaluator.
 func RunCircuit(circ *circuit.Circuit, gin, ein *big.Int, o Opts) *Result {
 	return run(o, func(conn *p2p.Conn, oti ot.OT, r *Result) error {
-		cfg := &env.Config{Rand: drbg.New(o.Seed*2 + 11)}
+		cfg := &env.Config{Rand: drbg.NewChunked(o.Seed*2+11, o.RandChunk)}
 		out, err := circuit.Garbler(cfg, conn, oti, circ, gin, false)
 		r.GOut = out
 		return err
@@ -159,7 +161,7 @@ func RunCircuit(circ *circuit.Circuit, gin, ein *big.Int, o Opts) *Result {
 func RunStream(src string, gin, ein []string, sizes [][]int, o Opts) *Result {
 	return run(o, func(conn *p2p.Conn, oti ot.OT, r *Result) error {
 		params := utils.NewParams()
-		params.Config = &env.Config{Rand: drbg.New(o.Seed*2 + 11)}
+		params.Config = &env.Config{Rand: drbg.NewChunked(o.Seed*2+11, o.RandChunk)}
 		defer params.Close()
 		io, out, err := compiler.New(params).Stream(conn, oti, "{data}", bytes.NewReader([]byte(src)), gin, sizes)
 		r.GIO, r.GOut = io, out
